@@ -158,6 +158,48 @@ def core_reads(chk, pid):
     chk.floor_count("C04.R4:positional reads", n, 5)
 
 
+def setup_inputs(chk, pid):
+    """C04.R6: setup stores the supplied series as they are (a column selection of the argument): no shift / fill / resample that could move information across dates."""
+    sites = [("SecurityBase", "setup", ("_prices", "_bidoffers")), ("CouponPayingSecurity", "setup", ("_coupons", "_cost_long", "_cost_short"))]
+    n = 0
+    for cls, name, fields in sites:
+        S = chk.summary(CORE, cls, name, host=cls, no_inline=())
+        host = "%s.%s" % (cls, name)
+        for w in S.writes(None, SELF):
+            if w.field not in fields:
+                continue
+            n += 1
+            for g, leaf in sym.cases(w.value):
+                ok = _plain_selection(leaf)
+                chk.ob("C04.R6", ok, CORE, host, "input-stored-untransformed:%s" % w.field, "input data is stored as supplied: a column of the argument, or the node's own empty column",
+                       where=w.where, expected="universe[name] / kwargs[key][name] / self.data[col] / None", found=short(leaf, 140), sample={"field": w.field, "value": short(leaf, 100)})
+    chk.floor_count("C04.R6:input series stored in setup", n, 4)
+    P = chk.summary("bt/backtest.py", "Backtest", "_process_data", host="Backtest")
+    for e in P.events:
+        if e.kind == "store" and e.loops:
+            v = e.value
+            ok = v[0] == "call" and v[1] in ("pd.concat",) and v[2] and v[2][0][0] == "list" and len(v[2][0]) == 3 and v[2][0][2][0] == "sub"
+            chk.ob("C04.R6", ok, "bt/backtest.py", "Backtest._process_data", "additional-data-only-prepended", "additional data is only given the synthetic first row: rows are never shifted", where=e.where,
+                   found=short(v, 140))
+
+
+def _plain_selection(v):
+    t = v[0]
+    if t in ("none",):
+        return True
+    if t == "sub":
+        return _plain_selection(v[1]) and v[2][0] in ("fld", "str", "param")
+    if t in ("param", "fld"):
+        return True
+    if t == "res":
+        return True
+    if t == "num":
+        return True  # the node's own, freshly created column
+    if t == "call" and v[1] in ("pd.DataFrame", "pandas.DataFrame") and not any(isinstance(a, tuple) and a and a[0] not in ("num", "nan") for a in v[2]):
+        return True  # the node's own, freshly created frame
+    return False
+
+
 def run(chk):
     chk.explain("C04: extent analysis (T-EXT). Every value that reaches a sink of a stock algo (arguments of node calls, stored temp values, returns, branch conditions) is "
                 "classified FULL / WINDOWED / ROW / INDEX / POS; every use of a FULL object (get_data frames, constructor-supplied frames, target.data) must be a now-bounded access; "
@@ -171,5 +213,6 @@ def run(chk):
     chk.floor_count("C04.R1:time-indexed access sites", ns, 12)
     universe_accessor(chk, "C04")
     core_reads(chk, "C04")
+    setup_inputs(chk, "C04")
     core_rules.accessor_rules(chk, "C04")
     backtest_rules.run_loop(chk, "C04")
